@@ -227,7 +227,7 @@ def programs(E, k, w):
     from discopy.cartesian import tuplify
     x = Ty('x')
     sig = [Box('copy', x, x @ x), Box('merge', x @ x, x), Box('del', x, Ty()),
-           Box('new', Ty(), x), Box('h', x, x)]
+           Box('new', Ty(), x), Box('h', x, x), Box('scalar', Ty(), Ty())]
     n = E.choice('n', range(1, w + 1))
     dom = x ** n
     width = n
@@ -287,5 +287,5 @@ def harnesses(tier):
         H("programs", programs, dict(k=2 if q else 3, w=3), FUNCS,
           covers=["program"], engine="DSE choices (straight-line programs "
           "enumerated)", bounds="bodies of %d applications over {copy 1->2, "
-          "merge 2->1, del 1->0, new 0->1, h 1->1} on <= 3 input wires, wires "
+          "merge 2->1, del 1->0, new 0->1, h 1->1, scalar 0->0} on <= 3 input wires, wires "
           "used in planar order" % (2 if q else 3), timeout_s=T)]
